@@ -24,9 +24,36 @@ def gen_args(rng, f, malformed_rate=0.15):
     cols = vals.get('cols', vals.get('width', 8))
     slices = vals.get('slices', vals.get('depth', 8))
     for p, t in params:
+        if t == 'arr':
+            dims = rng.sample([1, 2, 3, 4, 5, 6, 7], 3)
+            vals[p] = tuple(dims)
+            rows, cols, slices = dims
+    for p, t in params:
         if p in vals:
             continue
-        if p in ('crop_height', 'crop_width', 'crop_depth'):
+        if t == ('tuple', ('Z', 'Z')) and p == 'axes':
+            vals[p] = tuple(rng.sample([0, 1, 2], 2))
+        elif p == 'pad_width':
+            vals[p] = tuple((rng.randint(0, 3), rng.randint(0, 3)) for _ in range(3))
+            if mal and rng.random() < 0.5:
+                vals[p] = ((-1, 2),) + vals[p][1:]
+        elif p in ('h_pad_top', 'h_pad_bottom', 'w_pad_left', 'w_pad_right', 'd_pad_front', 'd_pad_back'):
+            vals[p] = rng.randint(0, 4) if not (mal and rng.random() < 0.2) else -1
+        elif p in ('min_height', 'min_width', 'min_depth'):
+            vals[p] = rng.randint(1, 10)
+        elif p == 'border_mode':
+            vals[p] = rng.choice(['constant', 'reflect', 'nearest', 'mirror', 'wrap']) if not mal else 'edge'
+        elif p in ('value', 'fill_value') and t == 'Q':
+            vals[p] = Fr(-rng.randint(1, 9))
+        elif p == 'holes':
+            hs = []
+            for _ in range(rng.randint(0, 3)):
+                c = coords6(rng, rows, cols, slices)
+                if rng.random() < 0.2:
+                    c = tuple(x + rng.randint(-2, 3) for x in c)
+                hs.append(c)
+            vals[p] = hs
+        elif p in ('crop_height', 'crop_width', 'crop_depth'):
             n = {'crop_height': rows, 'crop_width': cols, 'crop_depth': slices}[p]
             vals[p] = rng.randint(1, max(1, n)) if not (mal and rng.random() < 0.3) else rng.choice([0, n + 2, -1])
         elif p in ('result_rows', 'result_cols', 'result_slices'):
